@@ -50,8 +50,9 @@ ATOMS = {
     "self.typed_dict": "typed",
     "key != discriminator": "!isdisc",
     "discriminator != key": "!isdisc",
+    "isinstance(data, dict)": "is_dict",      # the entry check as a guard clause: a given for everything after it
 }
-NAMES = ["in_data", "required", "rb_set", "rb_hit", "fbd", "failed", "agg", "addl", "remain", "mismatch", "addprops", "typed", "isdisc"]
+NAMES = ["in_data", "required", "rb_set", "rb_hit", "fbd", "failed", "agg", "addl", "remain", "mismatch", "addprops", "typed", "isdisc", "is_dict"]
 
 
 def _mentions(e, text: str, fn, depth=0) -> bool:
@@ -121,7 +122,7 @@ def object_protocol_rule(ctx, rule: str, clauses):
             fs = [ev.compile(path_condition(fn, s, parents)) for s in sites[kind]]
             return lambda v: any(bool(f(v)) for f in fs)
 
-        free = lambda v: (not v["rb_hit"] or v["rb_set"]) and (not v["addl"] or v["agg"])
+        free = lambda v: (not v["rb_hit"] or v["rb_set"]) and (not v["addl"] or v["agg"]) and v["is_dict"]
         undeclared = lambda v: free(v) and v["remain"] and v["mismatch"]
         captured = lambda v: v["agg"] and v["addl"]
         if has_addprops:
@@ -268,7 +269,14 @@ def object_protocol_rule(ctx, rule: str, clauses):
                 ok = i_d is not None and i_u is not None and i_d < i_u
                 var = texts[i_d].split(" = ")[0].split(":")[0].strip() if i_d is not None else None
                 ctx.check(ok, rule, construct, branch, "the Discriminated wrapper is not unwrapped as (discriminator key remembered, then data = data.data)", m, branch, detail="discriminator = data.discriminator; data = data.data")
-                rechecked = any(isinstance(x, ast.If) and norm(x.test) == "not isinstance(data, dict)" and any(isinstance(y, ast.Raise) for y in x.body) for x in branch.body[(i_u or 0):])
+                # ... inside the branch after the unwrapping, or right after the branch (every datum is then checked there)
+                blk_after = []
+                pb = parents.get(branch)
+                for fld in ("body", "orelse"):
+                    lst = getattr(pb, fld, None) if pb is not None else None
+                    if isinstance(lst, list) and branch in lst:
+                        blk_after = lst[lst.index(branch) + 1:]
+                rechecked = any(isinstance(x, ast.If) and norm(x.test) == "not isinstance(data, dict)" and any(isinstance(y, ast.Raise) for y in x.body) for x in branch.body[(i_u or 0):] + blk_after[:1])
                 ctx.check(rechecked, rule, construct + ":recheck", branch, "the unwrapped datum is not re-checked to be a dict", m, branch, detail="if not isinstance(data, dict): raise bad_type")
                 uses = [c for c in ast.walk(fn) if isinstance(c, ast.Compare) and var and var in (norm(c.left), norm(c.comparators[0])) and norm(c.left) == "key" or (isinstance(c, ast.Compare) and var and norm(c.comparators[0]) == "key" and norm(c.left) == var)]
                 ctx.check(bool(uses), rule, construct + ":exempt", branch, f"the remembered discriminator key `{var}` is never compared with the undeclared keys: it is reported as an unexpected property", m, branch, detail="key != discriminator")
